@@ -32,6 +32,13 @@ pub enum Call {
     SetLocal(Creds),
     QueryTx { tid: u128 },
     QueryPeer { addr: SocketAddr },
+    /// `StunAgent::send_data`: arbitrary (non-STUN) application bytes addressed like a transmission
+    SendData { bytes: Vec<u8>, to: SocketAddr },
+    /// `mut_request_transaction(id)`: peer address seen through the mutable handle, and through the
+    /// agent reachable from it (`StunRequestMut::agent` / `mut_agent`)
+    QueryTxMut { tid: u128 },
+    /// transport(), local_addr(), remote_addr(), local/remote credentials
+    Getters,
 }
 
 #[derive(Clone, Debug, PartialEq, Eq)]
@@ -69,6 +76,7 @@ pub enum Reply {
     Unit,
     Tx(Option<SocketAddr>),
     Peer(bool),
+    Getters { tcp: bool, local: SocketAddr, remote_addr: Option<SocketAddr>, local_creds: Option<String>, remote_creds: Option<String> },
     Panic(String, String),
 }
 
@@ -89,6 +97,7 @@ impl Reply {
             Reply::Tx(_) => 12,
             Reply::Peer(_) => 13,
             Reply::Panic(_, _) => 14,
+            Reply::Getters { .. } => 15,
         }
     }
     pub fn short(&self) -> String {
@@ -135,7 +144,17 @@ fn off(base: Instant, t: Instant) -> i128 {
 }
 
 pub fn new_agent(tcp: bool, local: SocketAddr) -> StunAgent {
-    StunAgent::builder(if tcp { TransportType::Tcp } else { TransportType::Udp }, local).build()
+    new_agent_with(tcp, local, None)
+}
+
+/// `remote`: the optional fixed remote address a `StunAgentBuilder` can be given.  No property lets
+/// it influence where a transmission goes (C18: "to the destination given at send time").
+pub fn new_agent_with(tcp: bool, local: SocketAddr, remote: Option<SocketAddr>) -> StunAgent {
+    let b = StunAgent::builder(if tcp { TransportType::Tcp } else { TransportType::Udp }, local);
+    match remote {
+        Some(r) => b.remote_addr(r).build(),
+        None => b.build(),
+    }
 }
 
 /// Execute one call.  Panics inside the library become `Reply::Panic`.
@@ -198,6 +217,31 @@ fn exec_inner(agent: &mut StunAgent, call: &Call, base: Instant) -> Reply {
         }
         Call::QueryTx { tid } => Reply::Tx(agent.request_transaction(TransactionId::from(*tid)).map(|r| r.peer_address())),
         Call::QueryPeer { addr } => Reply::Peer(agent.is_validated_peer(*addr)),
+        Call::SendData { bytes, to } => {
+            let t = agent.send_data(bytes, *to);
+            Reply::Transmit { data: t.data().to_vec(), from: t.from, to: t.to, tcp: t.transport == TransportType::Tcp }
+        }
+        Call::QueryTxMut { tid } => match agent.mut_request_transaction(TransactionId::from(*tid)) {
+            Some(mut r) => {
+                let a = r.peer_address();
+                // the agent reachable through the handle is the same agent
+                let via_agent = r.agent().request_transaction(TransactionId::from(*tid)).map(|q| q.peer_address());
+                let via_mut = r.mut_agent().request_transaction(TransactionId::from(*tid)).map(|q| q.peer_address());
+                if via_agent != Some(a) || via_mut != Some(a) {
+                    Reply::Tx(None)
+                } else {
+                    Reply::Tx(Some(a))
+                }
+            }
+            None => Reply::Tx(None),
+        },
+        Call::Getters => Reply::Getters {
+            tcp: agent.transport() == TransportType::Tcp,
+            local: agent.local_addr(),
+            remote_addr: agent.remote_addr(),
+            local_creds: agent.local_credentials().map(|c| format!("{c:?}")),
+            remote_creds: agent.remote_credentials().map(|c| format!("{c:?}")),
+        },
     }
 }
 
@@ -213,5 +257,8 @@ pub fn call_short(c: &Call) -> String {
         Call::SetLocal(c) => format!("set_local_credentials({})", c.short_desc()),
         Call::QueryTx { tid } => format!("request_transaction({tid:#x})"),
         Call::QueryPeer { addr } => format!("is_validated_peer({addr})"),
+        Call::SendData { bytes, to } => format!("send_data({}B) to={}", bytes.len(), to),
+        Call::QueryTxMut { tid } => format!("mut_request_transaction({tid:#x}).peer_address()"),
+        Call::Getters => "getters".into(),
     }
 }
